@@ -27,6 +27,15 @@ Record dump := mkdump {
 
 Inductive hop := HDeliver (blk : nat) (now : N) (o : obs) (d : option dump).
 
+(* crash after operation [cr_op] (all commits up to then are in the store), restart, deliveries offered again from
+   operation [cr_resume] on *)
+Record crash := mkcrash {
+  cr_op : N; cr_resume : N;
+  cr_restart_err : bool;     (* start-up failed or panicked *)
+  cr_restart : dump;         (* what the restarted node reports before any new delivery *)
+  cr_final : dump            (* after the remaining deliveries *)
+}.
+
 Record hist := mkhist {
   h_genesis_addr : N;
   h_team_key : N;
@@ -35,7 +44,8 @@ Record hist := mkhist {
   h_branch_valid : list bool;  (* per block: a builder node whose chain ends at its parent accepted it *)
   h_ops : list hop;
   h_fresh : option dump;       (* dump of a fresh Go node fed only the final main chain *)
-  h_fresh_ok : bool
+  h_fresh_ok : bool;
+  h_crashes : list crash
 }.
 
 (* ---------- projections of the model state ---------- *)
